@@ -60,6 +60,13 @@ int main(int argc, char **argv) {
         if (k == seq || k == 0) {
             if (!strcmp(mode, "exit128")) { fprintf(stderr, "fatal: not a git repository (or any of the parent directories): .git\n"); return 128; }
             if (!strcmp(mode, "exit1")) { fprintf(stderr, "error: \xf0\x9f\x92\xa5 injected failure \xff\xfe garbage\n"); return 1; }
+            if (!strcmp(mode, "exit128-long")) {
+                /* a long diagnostic as a localised git prints it: far more than 200 bytes, multi-byte characters at every byte offset modulo 3 */
+                fprintf(stderr, "fatal: ");
+                for (int j = 0; j < 40; j++) fprintf(stderr, "%s\xe3\x83\xaa\xe3\x83\x9d\xe3\x82\xb8\xe3\x83\x88\xe3\x83\xaa", (j % 3 == 0) ? "x" : (j % 3 == 1) ? "yz" : "");
+                fprintf(stderr, "\n\xc3\xa9\xc3\xa9\xc3\xa9 \xf0\x9f\x98\x80 d\xc3\xa9p\xc3\xb4t introuvable\n");
+                return 128;
+            }
             if (!strcmp(mode, "exit1-silent")) { return 1; }
             if (!strcmp(mode, "ok-empty")) { return 0; }
             if (!strcmp(mode, "ok-garbage")) { fputs("zz not-a-number \x01\x02\xff\xfe\n%%%\n", stdout); return 0; }
